@@ -416,6 +416,15 @@ func c15HelperHandsBack(g *ssa.Function, call ssa.CallInstruction, v ssa.Value) 
 	return true
 }
 
+// c13ErrFlow: the shared ErrFlow with the path-sensitive / pass-through-aware second opinion.
+func c13ErrFlow(call ssa.CallInstruction, o ErrFlowOpts) ErrFlowResult {
+	r := ErrFlow(call, o)
+	if !r.OK && len(o.Tolerated) == 0 && c15ErrFlowPathSensitive(call) {
+		return ErrFlowResult{OK: true, How: "tested; every feasible failure path returns a non-nil error (through a pass-through helper / shared error variable)"}
+	}
+	return r
+}
+
 // c15ErrFlowPathSensitive: a second opinion for the shared ErrFlow when the
 // error is merged into a variable that a later step also assigns
 // (`x, err := a(); if err == nil { err = b(x) }; if err != nil { return … }`):
@@ -457,7 +466,7 @@ func c15ErrFlowPathSensitive(call ssa.CallInstruction) bool {
 					}
 				}
 			case *ssa.Return:
-				v := u.Results[errIdx]
+				v := c13PassThrough(u.Results[errIdx])
 				if !(k2[v] || ErrNilStatus(v, 0) == NonNil || derivesFromAny(v, k2, 0)) {
 					ok = false
 				}
@@ -1584,7 +1593,7 @@ func c15R2(c *Ctx) {
 				ct.instrs[k] = true
 			}
 			pb, pi := c13AfterSite(P)
-			if bad := c13SuccessEscapes(f, pb, pi, ct, nil); bad != nil {
+			if bad := c13SuccessEscapes(f, pb, pi, ct, c13ToleratedReturns(f, errAl, []string{c15NoLink})); bad != nil {
 				okTol, whyTol = false, fmt.Sprintf("the return at %s (error %s) reports success after a page call although the page function's error was not found to be errNoLink", c.P.Pos(bad.Ret.Pos()), describe(bad.Val))
 			}
 		}
@@ -2062,7 +2071,9 @@ func c15R3(c *Ctx) {
 			continue
 		}
 		// functions that merely forward lists they were given (no exchange, no fetch of an index) are not listing ends
-		conditional := len(c13SendSites(f)) > 0 // the API page may rely on the server; the tag-schema path may not
+		// the API page may rely on the server's own filtering (it sees the response: it performs the exchange or is handed the
+		// response by the page function); the tag-schema path may not
+		conditional := len(c13SendSites(f)) > 0 || c13HasParam(f, c13PkgHTTP, "Response")
 		fn := FnName(f)
 		for _, cb := range cbs {
 			ok, why := okList(f, cb.Common().Args[0], cb.(ssa.Instruction), conditional, true, 2)
